@@ -812,7 +812,7 @@ pub fn geometry_test(spec: &DistSpec, n: u64, seed: u64) -> Result<(LawOut, u64)
         let lattice = crate::simrng::boundary_lattice();
         let mut bursts = 0u64;
         for (li, (kind, inj)) in lattice.iter().enumerate() {
-            for &k in &[2u64, 3, 6, 12, 33, 97, 300] {
+            for &k in &[2u64, 3, 6, 12, 33, 97, 300, 1000, 3100, 9100] {
                 for start in 0..3u64 {
                     let faults: Vec<crate::simrng::Fault> = (start..start + k).map(|pos| crate::simrng::Fault { pos, inject: *inj }).collect();
                     let mut rng = SimRng::with_faults(mix(&[seed, 0xB0257, li as u64, k, start]), faults);
